@@ -121,6 +121,7 @@ func runConc(in *bufio.Scanner, w *bufio.Writer) {
 			const resx, resy = 48, 43 // frame = 4128 bytes > bufio's 4096: at most one frame is buffered ahead
 			var sent, started int64   // frames whose Write returned / started, over both connections
 			var torn, outOfRange, okSnaps, errSnaps, infoCalls, blank, shown int64
+			var connNo, connSent, connStarted, staleRefusals, polls int64 // per-connection frame counters for the polling client
 			stop := make(chan struct{})
 			var wg sync.WaitGroup
 			s := &service{}
@@ -128,15 +129,34 @@ func runConc(in *bufio.Scanner, w *bufio.Writer) {
 				wg.Add(1)
 				go func(q int) {
 					defer wg.Done()
+					last := -1
 					for i := 0; ; i++ {
 						select {
 						case <-stop:
 							return
 						default:
 						}
+						// requester 0 is a polling client: it passes the frame number of the snapshot it got last and may be
+						// told "no new frames yet" only while the processor's frame counter really equals that number
+						arg := -1
+						if q == 0 {
+							arg = last
+						}
+						cn0, loC := atomic.LoadInt64(&connNo), atomic.LoadInt64(&connSent)
 						lo := atomic.LoadInt64(&sent) - 1
-						fr, derr := s.TakeSnapshot(-1)
+						fr, derr := s.TakeSnapshot(arg)
 						hi := atomic.LoadInt64(&started)
+						hiC, cn1 := atomic.LoadInt64(&connStarted), atomic.LoadInt64(&connNo)
+						if q == 0 && arg >= 0 {
+							atomic.AddInt64(&polls, 1)
+							if derr != nil && strings.Contains(fmt.Sprint(derr.Body...), "no new frames") &&
+								cn0 == cn1 && loC >= 1 && (int64(arg) < loC-2 || int64(arg) > hiC) {
+								atomic.AddInt64(&staleRefusals, 1)
+							}
+						}
+						if fr != nil && derr == nil {
+							last = fr.Status.FrameCount
+						}
 						if derr != nil || fr == nil {
 							atomic.AddInt64(&errSnaps, 1)
 						} else {
@@ -180,6 +200,9 @@ func runConc(in *bufio.Scanner, w *bufio.Writer) {
 			for c := 0; c < 2; c++ {
 				server, client := net.Pipe()
 				done := make(chan error, 1)
+				atomic.StoreInt64(&connSent, 0)
+				atomic.StoreInt64(&connStarted, 0)
+				atomic.AddInt64(&connNo, 1)
 				frameLogIntervalFirstMin, frameLogInterval = 15, 60*5
 				go func() {
 					defer func() {
@@ -199,11 +222,13 @@ func runConc(in *bufio.Scanner, w *bufio.Writer) {
 						binary.LittleEndian.PutUint16(raw[2*j:], uint16(k))
 					}
 					atomic.StoreInt64(&started, k)
+					atomic.StoreInt64(&connStarted, int64(i+1))
 					client.SetWriteDeadline(time.Now().Add(5 * time.Second))
 					if _, err := client.Write(raw); err != nil {
 						break
 					}
 					atomic.StoreInt64(&sent, k)
+					atomic.StoreInt64(&connSent, int64(i+1))
 				}
 				client.Close()
 				select {
@@ -236,6 +261,7 @@ func runConc(in *bufio.Scanner, w *bufio.Writer) {
 			fmt.Fprintf(w, "< conn%s\n", conns)
 			fmt.Fprintf(w, "< frames sent=%d lastconnprocessed=%d\n", k, processed)
 			fmt.Fprintf(w, "< snap whole=%d torn=%d outofrange=%d blank=%d none=%d info=%d\n", okSnaps, torn, outOfRange, blank, errSnaps, infoCalls)
+			fmt.Fprintf(w, "< poll requests=%d stalerefusals=%d\n", polls, staleRefusals)
 			for _, r := range readRaces(seen) {
 				fmt.Fprintf(w, "< race %s\n", r)
 			}
